@@ -22,7 +22,7 @@ from concurrent.futures import ProcessPoolExecutor
 from typing import Dict, List, Optional, Tuple
 
 from ..loader import AnalysisError, repo_root
-from ..report import Checker, unlisted_violations
+from ..report import Checker, unlisted_violations, untrusted_violations
 
 
 def normalised(path: str) -> str:
@@ -147,6 +147,9 @@ def run_variant(v: dict) -> dict:
                 res["outcome"] = "violation"
                 res["rules"] = sorted({o.rule for o in vio})
                 res["detail"] = "; ".join(f"{o.rule}@{o.construct}" for o in vio[:4])
+            elif untrusted_violations(ck):
+                res["outcome"] = "analysis-error"
+                res["detail"] = "deviation in code that uses an unmodelled construct: " + untrusted_violations(ck)[0][1]
             else:
                 res["outcome"] = "holds"
         except AnalysisError as e:
